@@ -26,6 +26,10 @@ def run_one(prop: str, tier: str) -> int:
         rep.analysed = {"repo": str(prog.root), "modules": len(prog.modules), "functions": len(prog.funcs),
                         "classes": len(prog.classes), "source_digest": prog.digest()}
         mod.check(prog, rep)
+        renamed = {f"{rel}::{q}": m for rel, mo in prog.modules.items() for q, m in getattr(mo, "alpha", {}).items()}
+        if renamed:
+            rep.analysed["alpha_normalised"] = {"note": "local variables renamed towards the reference naming before analysis "
+                                                "(alpha-equivalent program)", "functions": renamed}
         code = finish(rep)
         if tier == "thorough" and not os.environ.get("VERIF_EVIDENCE_DIR"):
             # wider exploration: the self-audit re-runs the rule set on scratch copies carrying one seeded break or benign
